@@ -130,7 +130,7 @@ def run(ctx: Ctx):
     check_cumulative_horizon(ctx, "C05-O11")
     check_solve_is_read_only(ctx, "C05-O12")
     check_constraint_table(ctx, "C05-O13")
-    check_small_semantics(ctx, "C05-O14", encoder=False, dfs=True)
+    check_small_semantics(ctx, "C05-O14", encoder=True, dfs=True)
     generic_sweeps(ctx, skip_stutter_modules=("solvor/sat.py",))
 
 
